@@ -44,6 +44,15 @@ type Frame struct {
 	Once         *Ptr // frame is the body of a sync.Once.Do: mark done when it is popped
 }
 
+// offerRule: a receive of a value whose channel element type contains elem, performed by
+// repository code while the channel done is closed, must have been a select that also offered
+// a receive on done (see checkOffer).
+type offerRule struct {
+	elem string
+	done ObjID
+	id   string
+}
+
 type watch struct {
 	name string
 	p    Ptr
@@ -144,6 +153,8 @@ type State struct {
 	// of a parked goroutine whose innermost repository method has the same receiver object;
 	// registered during set-up, append-only (the slice is shared copy-on-append)
 	watches []watch
+	// offer rules (vRecvMustOffer): see checkOffer
+	offers []offerRule
 }
 
 func newState() *State {
@@ -169,6 +180,7 @@ func (st *State) Clone() *State {
 		obs:       st.obs,
 		model:     st.model,
 		watches:   st.watches[:len(st.watches):len(st.watches)],
+		offers:    st.offers[:len(st.offers):len(st.offers)],
 	}
 	copy(n.heap, st.heap)
 	for i := range st.owned {
